@@ -9,7 +9,7 @@ overridden `fn visit_*` with a classification of its recursion:
               anywhere before it.  (Also accepted: the same call inside the closure handed to
               one of the WRAPPERS below, which were read and run their closure exactly once.)
   RecNone     the body visibly does not recurse: it contains no `visit_children_with`, no `visit_with` and no call of
-              another `self.visit_*` method.
+              any other `.visit_*` method.
   RecUnknown  anything else (conditional recursion, recursion into some fields only, recursion with another visitor,
               recursion inside a loop ...).  The token-level scanner cannot tell; an unknown entry of a rule that is
               claimed context-free makes the Coq obligation fail (closed) ...
@@ -180,10 +180,11 @@ def classify(stem, body, param):
         recv = body[k:m.start()].strip().lstrip("&*")
         depth = body[:m.start()].count("{") - body[:m.start()].count("}")
         calls.append((m.start(), recv, m.group(1), arg, depth))
-    self_calls = [m.group(1) for m in re.finditer(r"\bself\s*\.\s*(visit_\w+)\s*\(", body)
-                  if (stem, m.group(1)) not in WRAPPERS]
+    # any call of another visit method, on self or on anything else (closure parameters, sub-visitors)
+    self_calls = [m.group(1) for m in re.finditer(r"\b\w+\s*\.\s*(visit_\w+)\s*\(", body)
+                  if (stem, m.group(1)) not in WRAPPERS and m.group(1) not in REC_CALLS]
     if not calls and not self_calls:
-        return "none", "no visit_children_with / visit_with / self.visit_* call in the body"
+        return "none", "no visit_children_with / visit_with / .visit_* call in the body"
     # only `return` and `?` can leave the function before a top-level statement is reached (break/continue cannot skip a
     # statement that is not inside their loop; a `return` inside a closure is counted too: conservative)
     escapes = [m.start() for m in re.finditer(r"\breturn\b|\?\s*[;.)]", body)]
@@ -250,6 +251,18 @@ def scan_visit_impls(stem, src):
 
 def scan_handler_impls(stem, src):
     rows = []
+    # free functions of the file (outside the rule's entry point) that call `.traverse(`: calling one re-enters the driver
+    reentrant_fns = set()
+    for fm in re.finditer(r"\bfn\s+(\w+)\s*(?:<[^>]*>)?\s*\(", src):
+        if fm.group(1).startswith("lint_program"):
+            continue
+        pclose = match_paren(src, fm.end() - 1)
+        bopen = src.find("{", pclose)
+        semi = src.find(";", pclose)
+        if bopen < 0 or (0 <= semi < bopen):
+            continue
+        if re.search(r"\.\s*traverse\s*\(", src[bopen:match_brace(src, bopen)]):
+            reentrant_fns.add(fm.group(1))
     for m in re.finditer(r"\bimpl\b\s*(?:<[^{;]*?>)?\s*(?:[\w:]+::)?Handler\s+for\s+(\w+)[^{;]*\{", src):
         start = m.end() - 1
         end = match_brace(src, start)
@@ -270,7 +283,8 @@ def scan_handler_impls(stem, src):
                 if fm.group(1) == "on_exit_node":
                     exit_stop = True
         rows.append(dict(handler=m.group(1), stops=stops, exit_stop=exit_stop,
-                         reenters=bool(re.search(r"\.\s*traverse\s*\(", block))))
+                         reenters=bool(re.search(r"\.\s*traverse\s*\(", block)) or
+                         any(re.search(r"\b%s\s*\(" % re.escape(f), block) for f in reentrant_fns if not re.search(r"\bfn\s+%s\b" % re.escape(f), block))))
     return rows
 
 
@@ -292,19 +306,46 @@ Record hentry : Type := mkH { h_rule : str; h_handler : str; h_stops : list str;
 """
 
 
+def cut_tests(raw):
+    """drop the trailing `#[cfg(test)] mod name { ... }`"""
+    m = re.search(r"#\[cfg\(test\)\]\s*mod\s+\w+\s*\{", raw)
+    return raw if not m else raw[:m.start()]
+
+
+def dependency_analyses(repo):
+    """The two whole-program analyses rules consult are `Visit` implementations themselves: the control-flow analysis of
+    /repo/src/control_flow/mod.rs and the scope analysis of the deno_ast dependency (version from Cargo.lock, source in the
+    cargo registry).  Their overrides are recorded under pseudo rule names; a construct hidden from the analysis is hidden
+    from every rule that consults it."""
+    out = [("control-flow-analysis", "control_flow", os.path.join(repo, "src", "control_flow", "mod.rs"))]
+    try:
+        lock = open(os.path.join(repo, "Cargo.lock")).read()
+        m = re.search(r'name = "deno_ast"\s*\nversion = "([^"]+)"', lock)
+        import glob
+        c = sorted(glob.glob(os.path.expanduser("~/.cargo/registry/src/*/deno_ast-%s/src/scopes.rs" % m.group(1))))
+        if c:
+            out.append(("scope-analysis", "scopes", c[0]))
+    except Exception:
+        pass
+    return out
+
+
 def generate(repo=None, write=True):
     repo = repo or lib.REPO
     d = os.path.join(repo, "src", "rules")
     vis, han, codes, stop_calls_outside_impl = [], [], [], []
+    consumers = {"scope-analysis": [], "control-flow-analysis": []}
     for fn in sorted(os.listdir(d)):
         if not fn.endswith(".rs"):
             continue
         stem = fn[:-3]
         raw = open(os.path.join(d, fn)).read()
-        k = raw.find("#[cfg(test)]")
-        src = strip_rust(raw if k < 0 else raw[:k])
-        code = rule_code(stem, src if '"' not in src else raw)
+        src = strip_rust(cut_tests(raw))
         code = rule_code(stem, raw)
+        if re.search(r"\.\s*scope\s*\(\s*\)", src):
+            consumers["scope-analysis"].append(code)
+        if re.search(r"\.\s*control_flow\s*\(\s*\)", src):
+            consumers["control-flow-analysis"].append(code)
         codes.append((code, stem))
         for r in scan_visit_impls(stem, src):
             r.update(rule=code, file=stem)
@@ -317,6 +358,14 @@ def generate(repo=None, write=True):
         if n_stop != sum(1 for _ in re.finditer(r"\bstop_traverse\s*\(", "".join(
                 src[m.end():match_brace(src, m.end() - 1)] for m in re.finditer(r"\bimpl\b\s*(?:<[^{;]*?>)?\s*(?:[\w:]+::)?Handler\s+for\s+\w+[^{;]*\{", src)))):
             stop_calls_outside_impl.append(code)
+    analyses_found = []
+    for name, stem, path in dependency_analyses(repo):
+        if not os.path.exists(path):
+            continue
+        analyses_found.append(name)
+        for r in scan_visit_impls(stem, strip_rust(cut_tests(open(path).read()))):
+            r.update(rule=name, file=path)
+            vis.append(r)
     # who else touches the flag protocol
     flag_touchers = []
     for dp, _, fs in os.walk(os.path.join(repo, "src")):
@@ -367,6 +416,9 @@ def generate(repo=None, write=True):
             "true" if r["exit_stop"] else "false", "true" if r["reenters"] else "false", r["rule"], r["handler"], ",".join(r["stops"]) or "-"))
     out.append(";\n".join(rows))
     out.append("].\n")
+    out.append("(* rules that consult a whole-program analysis which is itself a Visit implementation (rows of visit_table under that name) *)")
+    out.append("Definition analysis_consumers : list (str * list str) := [\n  %s].\n" % ";\n  ".join(
+        "(%s, [%s])  (* %s: %s *)" % (coq_str(a), "; ".join(coq_str(c) for c in cs), a, ", ".join(cs)) for a, cs in sorted(consumers.items())))
     out.append("(* rule files (code of the rule defined in each file of src/rules) *)")
     out.append("Definition rule_files : list str := [\n  %s].\n" % ";\n  ".join("%s (* %s *)" % (coq_str(c), c) for c, _ in codes))
     out.append("(* rules with a stop_traverse call outside any `impl Handler` block (helper functions): must be empty *)")
@@ -378,7 +430,7 @@ def generate(repo=None, write=True):
     out.append("(* TraverseFlow: should_stop reads then resets; assert_init asserts !flag; set sets; reset clears *)")
     out.append("Definition traverse_flow_as_modelled : bool := %s.\n" % ("true" if flow_ok else "false"))
     text = "\n".join(out)
-    data = {"visit_table": vis, "handler_table": han, "rule_files": codes, "stop_calls_outside_handler_impls": stop_calls_outside_impl,
+    data = {"analysis_consumers": consumers, "analyses_found": analyses_found, "visit_table": vis, "handler_table": han, "rule_files": codes, "stop_calls_outside_handler_impls": stop_calls_outside_impl,
             "flag_protocol_users_outside_driver": flag_touchers, "driver_shape_as_modelled": driver_ok, "traverse_flow_as_modelled": flow_ok}
     if write:
         path = os.path.join(lib.COQ, "Gen", "VisitTable.v")
